@@ -71,11 +71,25 @@ for (const op of ops) {
     if (op.op === 'tsroutes' || op.op === 'tsserve') {
       const mk = m['create' + op.service + 'Routes'];
       if (typeof mk !== 'function') { out({ ...base, event: 'DriverError', seq: seq.n++, detail: 'no create' + op.service + 'Routes' }); continue; }
-      let routes = mk(handlerProxy(op, seq), op.serverOptions || undefined);
+      // server options built from the plan: onError (returns a whole Response) and validateRequest
+      let serverOptions = op.serverOptions || undefined;
+      if (op.hook || op.validate) {
+        serverOptions = { ...(serverOptions || {}) };
+        if (op.hook) {
+          serverOptions.onError = (err, _req) => {
+            out({ ...base, event: 'HookCalled', seq: seq.n++, errKind: (err instanceof m.ValidationError) ? 'validationError' : 'jsError' });
+            return new Response('HOOKBODY', { status: op.hook.status ? 418 : 200, headers: op.hook.headers ? { 'X-Hook': 'set' } : {} });
+          };
+        }
+        if (op.validate) {
+          serverOptions.validateRequest = (_method, _body) => op.validate.map((n) => ({ field: n, description: 'rule' }));
+        }
+      }
+      let routes = mk(handlerProxy(op, seq), serverOptions);
       // the other services of the module share the route table (a wrong route must not find another handler unnoticed)
       for (const other of op.services || []) {
         if (other !== op.service && typeof m['create' + other + 'Routes'] === 'function') {
-          routes = routes.concat(m['create' + other + 'Routes'](handlerProxy(op, seq), op.serverOptions || undefined));
+          routes = routes.concat(m['create' + other + 'Routes'](handlerProxy(op, seq), serverOptions));
         }
       }
       if (op.op === 'tsroutes') {
